@@ -8,7 +8,9 @@
 #include <dispatch/private.h>
 #include <sched.h>
 
+static char k_main_key, k_inner_key;
 typedef struct {
+	dispatch_queue_t qs[3];
 	vf_item_t *items; int cap; _Atomic int next;
 	_Atomic uint64_t expected, done;
 	uint64_t salt, plain_ctr, chain_ctr, chain_hash;
@@ -26,6 +28,10 @@ static void mq_body(void *ctx)
 	it->start = vf_stamp();
 	if (atomic_fetch_add(&it->runs, 1)) vf_violation("C01:ran-twice", "main-queue item %u ran twice", it->id);
 	if (!vf_item_payload_ok(it)) vf_violation("C05:payload-not-visible", "main-queue item %u: payload not visible", it->id);
+	/* C18: the main queue is the bottom of the chain of every queue that targets it */
+	if (dispatch_get_specific(&k_main_key) != (void *)t) vf_violation("C18:get_specific:main-queue-at-the-bottom-of-the-chain:returns-NULL", "item on %s does not see the value set on the main queue", it->queue ? "a queue that targets the main queue" : "the main queue");
+	if (it->queue && dispatch_get_specific(&k_inner_key) != (void *)t->qs[it->queue]) vf_violation("C18:get_specific:queue-over-main:wrong-value", "item on a queue over the main queue does not see that queue's own value");
+	if (!it->queue && dispatch_get_specific(&k_inner_key) != NULL) vf_violation("C18:get_specific:main-queue:returns-value-from-outside-the-chain", "item on the main queue sees a value set on a queue that targets it");
 	uint64_t v = t->plain_ctr;
 	if ((it->id & 15) == 0) sched_yield();
 	t->plain_ctr = v + 1;
@@ -45,19 +51,21 @@ static void *mq_client(void *arg)
 {
 	mq_client_t *c = arg;
 	mq_trial_t *t = c->t;
-	dispatch_queue_t mq = dispatch_get_main_queue();
 	dispatch_group_t grp = dispatch_group_create();
 	pthread_barrier_wait(&t->bar);
 	for (int i = 0; i < t->ops; i++) {
 		int idx = atomic_fetch_add(&t->next, 1);
 		if (idx >= t->cap) break;
 		vf_item_t *it = &t->items[idx];
-		it->id = (uint32_t)idx + 1; it->ctx = t; it->queue = 0; it->domain = 1; it->submitter = (uint16_t)c->cid;
+		int qi = (int)vf_rnd_n(&c->rng, 3);
+		dispatch_queue_t mq = t->qs[qi];
+		it->id = (uint32_t)idx + 1; it->ctx = t; it->queue = (uint16_t)qi; it->domain = 1; it->submitter = (uint16_t)c->cid;
 		uint32_t k = vf_rnd_n(&c->rng, 100);
 		int kind = k < 40 ? VF_K_ASYNC : k < 60 ? VF_K_SYNC : k < 70 ? VF_K_BARRIER_SYNC : k < 80 ? VF_K_ASYNC_AND_WAIT : k < 90 ? VF_K_BARRIER_ASYNC : VF_K_GROUP_ASYNC;
 		int f = (int)vf_rnd_n(&c->rng, 2);
 		it->kind = (uint8_t)kind;
 		it->is_sync = (kind == VF_K_SYNC || kind == VF_K_BARRIER_SYNC || kind == VF_K_ASYNC_AND_WAIT);
+		it->is_barrier = (qi == 2) && (kind == VF_K_BARRIER_SYNC || kind == VF_K_BARRIER_ASYNC);
 		vf_item_fill_payload(it, t->salt);
 		atomic_fetch_add(&t->expected, 1);
 		it->submitted = 1;
@@ -97,6 +105,12 @@ static void *controller(void *arg)
 		t->nclients = (int)vf_rnd_range(&r, 2, 8);
 		t->ops = (int)((long)(prof.kind == VF_P_OFF ? 6000 : 1500) * vf_opts.scale / 100);
 		t->cap = t->nclients * t->ops;
+		t->qs[0] = dispatch_get_main_queue();
+		t->qs[1] = dispatch_queue_create_with_target("vf.mainq.serial-over-main", DISPATCH_QUEUE_SERIAL, t->qs[0]);
+		t->qs[2] = dispatch_queue_create_with_target("vf.mainq.conc-over-main", DISPATCH_QUEUE_CONCURRENT, t->qs[0]);
+		dispatch_queue_set_specific(t->qs[0], &k_main_key, t, NULL);
+		dispatch_queue_set_specific(t->qs[1], &k_inner_key, t->qs[1], NULL);
+		dispatch_queue_set_specific(t->qs[2], &k_inner_key, t->qs[2], NULL);
 		t->items = calloc((size_t)t->cap, sizeof(vf_item_t));
 		pthread_barrier_init(&t->bar, NULL, (unsigned)t->nclients);
 		mq_client_t cl[8];
@@ -124,8 +138,17 @@ static void *controller(void *arg)
 		vf_ivstats_t st = { 0, 0, 0 };
 		char what[96];
 		snprintf(what, sizeof(what), "main queue (%s)", prof.desc);
-		vf_check_exclusion(sel, m, r1, "C02:overlap:main-queue", what, &st);
-		vf_check_queue_rules(sel, m, r1, r2, VF_Q_MAIN, "C02:overlap:main-queue", "C02:fifo:main-queue", what, &st);
+		/* every item of the hierarchy (main queue and the queues that target it) is mutually exclusive */
+		vf_check_exclusion(sel, m, r1, "C03:overlap:main-queue-hierarchy", what, &st);
+		for (int qi = 0; qi < 3; qi++) {
+			int mm = 0;
+			vf_item_t **sq = malloc(sizeof(*sq) * (size_t)(m + 1));
+			for (int i = 0; i < m; i++) if (sel[i]->queue == qi) sq[mm++] = sel[i];
+			snprintf(what, sizeof(what), "%s (%s)", qi == 0 ? "main queue" : qi == 1 ? "serial queue over the main queue" : "concurrent queue over the main queue", prof.desc);
+			if (qi == 2) vf_check_queue_rules(sq, mm, r1, r2, VF_Q_CONCURRENT, "C04:barrier-overlap", "C04:barrier-order", what, &st);
+			else vf_check_queue_rules(sq, mm, r1, r2, VF_Q_MAIN, qi ? "C02:overlap:serial" : "C02:overlap:main-queue", qi ? "C03:fifo:serial-in-hierarchy" : "C02:fifo:main-queue", what, &st);
+			free(sq);
+		}
 		if (t->plain_ctr != (uint64_t)m) vf_violation("C02:plain-counter-lost-update", "main queue: unsynchronised counter %llu after %d items", (unsigned long long)t->plain_ctr, m);
 		/* async items must run on the main thread; sync ones may run on the caller */
 		int threads = 0, seen[64];
@@ -139,7 +162,10 @@ static void *controller(void *arg)
 		vf_count("cross_thread_handoffs", st.cross_thread);
 		vf_emit("trial", "\"n\":1,\"sig\":\"mq%d-%d-%d-%d\",\"nontrivial\":%s,\"sample\":{\"trial\":%d,\"shape\":\"main-queue\",\"clients\":%d,\"items\":%d,\"threads_that_ran_items\":%d,\"perturb\":\"%s\"}",
 				t->nclients, prof.kind, vf_log2_bucket(st.cross_thread), threads, st.cross_thread ? "true" : "false", idx, t->nclients, m, threads, prof.desc);
-		free(sel); free(r1); free(r2); free(t->items); free(t);
+		dispatch_queue_set_specific(t->qs[0], &k_main_key, NULL, NULL);
+		dispatch_release(t->qs[1]); dispatch_release(t->qs[2]);
+		free(sel); free(r1); free(r2); free(t->items);
+		/* t stays allocated: it is the value of a queue-specific key that late items may still compare with */
 	}
 	exit(vf_finish());
 	return NULL;
